@@ -9,7 +9,7 @@ ended. The command handlers are abstract (`Backend`: any state machine that answ
 exactly one completion of class OK / NO / BAD); every theorem holds for EVERY backend and EVERY byte stream
 unless it names a hypothesis.
 
-What is true of the current code and what is not:
+What is true of the current code (after the repairs /repo d36bee1, 6e0070e, d270f6a) and what is not:
 * termination / no panic of the loop: full strength (`session_loop_terminates`).
 * one completion per line: full strength in the form the code really has (`one_completion_per_line`): every
   line the reader hands on is answered by exactly one completion — the only exception is an accepted IDLE,
@@ -19,12 +19,12 @@ What is true of the current code and what is not:
   and the number of completions is the number of CRLF pairs (`line_is_up_to_first_lf_partial`,
   `completions_eq_crlf_lines_partial`). "A line ends at CRLF" is FALSE of the code when the stream contains a
   bare LF (`bare_lf_splits_line`).
-* tags: the completion carries the line's own tag or an EMPTY tag, never anything else
-  (`completion_tag_is_line_tag_or_empty`). "The line's tag whenever it has one, else `*`" is FALSE:
-  `late_error_loses_tag`, `untagged_line_gets_empty_tag`; `error_tag_partial` under the named hypothesis
-  `lateErrDropsTag = false`.
-* lines that are dropped without any reply: `first_line_with_bad_first_byte_is_dropped`,
-  `starttls_without_tls_is_dropped` (witnesses), besides the deliberate TLS-record-header close.
+* tags: full strength (`completion_tag_is_line_tag_or_star`, `error_tag`): the completion carries the line's own
+  tag when it has one and `*` otherwise. Before the repairs this was false in two ways (late errors, empty
+  instead of `*`): the former witnesses are kept as regression examples.
+* lines that are dropped without any reply: `first_line_with_bad_first_byte_is_dropped` (witness; still in the
+  code: known finding), besides the deliberate TLS-record-header close. STARTTLS without TLS configuration is
+  answered NO now (regression example).
 * `max_errors_close`, `fewer_errors_do_not_close`, `success_resets_counter`, `session_usable_after_error`:
   full strength over the model, given the facts `sessionCfg` is built from (`session_facts_known`).
 -/
@@ -50,6 +50,13 @@ theorem session_max_errors_positive (tls : Bool) : 0 < (sessionCfg tls).maxErr :
 
 /-- the current source resets the error counter on a successfully parsed command -/
 theorem session_resets_on_success (tls : Bool) : (sessionCfg tls).resetOnSuccess = true := by
+  cases tls <;> decide
+
+/-- the current source keeps the parsed tag for every parse error (/repo d36bee1), writes `*` for an empty tag
+argument of `response.Bad` / `response.No` (6e0070e), and answers STARTTLS without TLS configuration (d270f6a) -/
+theorem session_repairs_in_place (tls : Bool) :
+    (sessionCfg tls).lateErrDropsTag = false ∧ (sessionCfg tls).emptyTagIsStar = true ∧
+    (sessionCfg tls).starttlsNoTLSDrops = false := by
   cases tls <;> decide
 
 /-! ## termination, no panic -/
@@ -217,7 +224,7 @@ is NOT executed), or a line that does not parse (NO) — exactly one completion,
 answered by exactly one completion. (The RFC's "until DONE" is not what the code does.) -/
 theorem idle_ended_by_next_line (cfg : Cfg) (B : Backend σ) (st : SState σ) (it : Bytes) (hm : st.mode = .idle it)
     (r : ReadRes) (hr : ∀ t, r ≠ .tlsOk t ∧ r ≠ .tlsNo t) :
-    ∃ cls st', serveStep cfg B st r = ([⟨it, cls⟩], .cont st') ∧ st'.mode = .normal ∧ st'.errs = st.errs := by
+    ∃ cls st', serveStep cfg B st r = ([mkC cfg it cls], .cont st') ∧ st'.mode = .normal ∧ st'.errs = st.errs := by
   rcases serveStep_idle cfg B st it hm r with h | ⟨t, h | h⟩
   · exact h
   · exact absurd h (hr t).1
@@ -225,123 +232,119 @@ theorem idle_ended_by_next_line (cfg : Cfg) (B : Backend σ) (st : SState σ) (i
 
 /-! ## tags -/
 
-/-- the tag field of what the reader hands on -/
-def resTag : ReadRes → Bytes
-  | .err t => t
-  | .cmd c => c.tag
-  | .tlsOk t => t
-  | .tlsNo t => t
-
-/-- **The completion for a line carries that line's own tag, or an empty tag — nothing else.** For a line the
-reader hands on and `serve` answers outside IDLE with a completion `x`: `x` is the untagged BYE of the
-invalid-state close, or `x.tag` is `lineTag` of the line's bytes (the longest prefix of tag characters, not
-DONE), or `x.tag` is EMPTY. It is never another line's tag and never a tag the client did not send. -/
-theorem completion_tag_is_line_tag_or_empty (cfg : Cfg) (fuel : Nat) (s : PState) (l : Line) (s' : PState)
+/-- **`completion_tag_is_line_tag_or_star`**, full strength over the model with the two repaired behaviours (`Parse`
+keeps the tag on every error; `response.Bad` / `response.No` write `*` for an empty tag): for a line the reader
+hands on (parser fuel above the number of unread bytes, as in `run`) and `serve` answers outside IDLE with a
+completion `x`: `x` is the untagged BYE of the invalid-state close, or `x.tag` is the line's own tag
+(`lineTag` of its bytes: the longest prefix of tag characters, not DONE) when it has one, and `*` when it has
+none. Never an empty tag, never another line's tag, for every class of completion and every backend. -/
+theorem completion_tag_is_line_tag_or_star (cfg : Cfg) (hk : cfg.lateErrDropsTag = false)
+    (hstar : cfg.emptyTagIsStar = true) (fuel : Nat) (s : PState) (hf : s.rest.length < fuel) (l : Line) (s' : PState)
     (h : readStep cfg fuel s = .line l s') (B : Backend σ) (st : SState σ) (hm : st.mode = .normal)
     (x : Completion) (nx : Next σ) (hs : serveStep cfg B st l.res = ([x], nx)) :
-    x = ⟨star, .bye⟩ ∨ x.tag = [] ∨ lineTag l.bytes = some x.tag := by
-  have ht := readStep_tag cfg fuel s l s' h
-  have hx : x = ⟨star, .bye⟩ ∨ x.tag = resTag l.res := by
-    unfold serveStep at hs
-    cases hres : l.res with
-    | tlsOk t => rw [hres] at hs; simp only at hs; cases hs; exact Or.inr rfl
-    | tlsNo t => rw [hres] at hs; simp only at hs; cases hs; exact Or.inr rfl
-    | err t => rw [hres, hm] at hs; simp only at hs; cases hs; exact Or.inr rfl
-    | cmd c =>
-      rw [hres, hm] at hs
-      simp only at hs
+    x = ⟨star, .bye⟩ ∨ x.tag = (lineTag l.bytes).getD star := by
+  have ht := readStep_tag_exact cfg hk fuel s hf l s' h
+  -- what `mkC` writes for a tag that is the line's tag, or empty when it has none
+  have wire_some : ∀ (t : Bytes) (cls : Cls), lineTag l.bytes = some t → (mkC cfg t cls).tag = (lineTag l.bytes).getD star := by
+    intro t cls hl
+    have hne := lineTag_some_ne hl
+    have he : t.isEmpty = false := by cases t with | nil => exact absurd rfl hne | cons _ _ => rfl
+    rw [hl]
+    cases cls <;> simp [mkC, wireTag, he]
+  have wire_none : ∀ (cls : Cls), (cls = .no ∨ cls = .bad) → lineTag l.bytes = none →
+      (mkC cfg [] cls).tag = (lineTag l.bytes).getD star := by
+    intro cls hc hl
+    rw [hl]
+    rcases hc with hc | hc <;> simp [hc, mkC, wireTag, hstar]
+  unfold serveStep at hs
+  cases hres : l.res with
+  | tlsOk t =>
+    rw [hres] at hs ht; simp only at hs ht; cases hs; exact Or.inr (wire_some t .ok ht)
+  | tlsNo t =>
+    rw [hres] at hs ht; simp only at hs ht; cases hs; exact Or.inr (wire_some t .no ht)
+  | err t =>
+    rw [hres] at ht
+    rw [hres, hm] at hs
+    simp only at hs ht
+    cases hs
+    right
+    cases hl : lineTag l.bytes with
+    | none => rw [hl] at ht; simp only [Option.getD_none] at ht; rw [ht, ← hl]; exact wire_none .bad (Or.inr rfl) hl
+    | some u => rw [hl] at ht; simp only [Option.getD_some] at ht; rw [ht, ← hl]; exact wire_some u .bad hl
+  | cmd c =>
+    rw [hres] at ht
+    rw [hres, hm] at hs
+    simp only at hs ht
+    -- a command that is not DONE carries the line's tag
+    have notDone : (c.payload = .done → False) → lineTag l.bytes = some c.tag := by
+      intro hnd
+      rcases ht with ⟨hd, _, _⟩ | ht
+      · exact absurd (isDoneCmd_eq hd) hnd
+      · exact ht
+    split at hs
+    all_goals
       split at hs
-      all_goals
-        split at hs
-        · cases hs; exact Or.inl rfl
-        · split at hs
-          · cases hs; exact Or.inr rfl
-          · split at hs
-            · cases hs
-            · cases hs; exact Or.inr rfl
-          · cases hs; exact Or.inr rfl
-  rcases hx with hx | hx
-  · exact Or.inl hx
-  · right
-    rw [hx]
-    cases hres : l.res with
-    | tlsOk t => rw [hres] at ht; exact ht
-    | tlsNo t => rw [hres] at ht; exact ht
-    | err t => rw [hres] at ht; exact ht
-    | cmd c => rw [hres] at ht; exact ht
+      · cases hs; exact Or.inl rfl
+      · split at hs
+        · rename_i hp
+          cases hs
+          exact Or.inr (wire_some c.tag .ok (notDone (fun e => by rw [hp] at e; cases e)))
+        · rename_i hp
+          split at hs
+          · cases hs
+          · cases hs
+            exact Or.inr (wire_some c.tag .no (notDone (fun e => by rw [hp] at e; cases e)))
+        · cases hs
+          right
+          rcases ht with ⟨_, h0, hl⟩ | ht
+          · rw [h0]; exact wire_none .no (Or.inl rfl) hl
+          · exact wire_some c.tag .no ht
+        · rename_i _ _ hnd
+          cases hs
+          exact Or.inr (wire_some c.tag _ (notDone hnd))
 
-/-- "Tagged with the line's tag whenever it has one" is FALSE of the current code — first way: an error that
-`Parse` finds at the final CR / LF (here: trailing garbage after a complete command) makes it return
-`Command{}`; `a NOOP x` is answered ` BAD …` with an EMPTY tag, and the client waiting for `a` gets no
-tagged completion. (Stated under what the facts say the source does: once `Parse` keeps the tag the
-hypothesis is false and `error_tag_partial` applies.) Oracle label `cause=late-error-empty-tag`. -/
-theorem late_error_loses_tag : (sessionCfg false).lateErrDropsTag = true →
-    (run (sessionCfg false) okBackend () (kw "a NOOP x\r\nb NOOP\r\n")).out = [⟨[], .bad⟩, ⟨kw "b", .ok⟩] ∧
-    lineTag (kw "a NOOP x\r\n") = some (kw "a") := by
+/-- … on the model of the current source: no hypothesis about the configuration is left -/
+theorem completion_tag_is_line_tag_or_star_now (tls : Bool) (fuel : Nat) (s : PState) (hf : s.rest.length < fuel)
+    (l : Line) (s' : PState) (h : readStep (sessionCfg tls) fuel s = .line l s') (B : Backend σ) (st : SState σ)
+    (hm : st.mode = .normal) (x : Completion) (nx : Next σ) (hs : serveStep (sessionCfg tls) B st l.res = ([x], nx)) :
+    x = ⟨star, .bye⟩ ∨ x.tag = (lineTag l.bytes).getD star :=
+  completion_tag_is_line_tag_or_star (sessionCfg tls) (session_repairs_in_place tls).1 (session_repairs_in_place tls).2.1
+    fuel s hf l s' h B st hm x nx hs
+
+/-- **`error_tag`** (was `error_tag_partial` with the hypothesis `lateErrDropsTag = false`, which the repaired `Parse`
+satisfies): on the model of the current source the tag the reader reports to `serve` for a line that does not
+parse is exactly the line's tag (empty when it has none, which `response.Bad` writes as `*`). -/
+theorem error_tag (tls : Bool) (fuel : Nat) (s : PState) (hf : s.rest.length < fuel) (bytes t : Bytes) (s' : PState)
+    (h : readStep (sessionCfg tls) fuel s = .line ⟨bytes, .err t⟩ s') : t = (lineTag bytes).getD [] :=
+  readStep_tag_exact (sessionCfg tls) (session_repairs_in_place tls).1 fuel s hf _ s' h
+
+/-- regression of `cause=late-error-empty-tag` (repaired by /repo d36bee1; was the witness `late_error_loses_tag`):
+trailing garbage after a complete command — an error `Parse` finds at the final CR / LF — is answered with the
+line's own tag; so is a bare-LF line -/
+example :
+    (run (sessionCfg false) okBackend () (kw "a NOOP x\r\nb NOOP\r\n")).out = [⟨kw "a", .bad⟩, ⟨kw "b", .ok⟩] ∧
+    (run (sessionCfg false) okBackend () (kw "a NOOP\nb NOOP\r\nc NOOP\r\n")).out = [⟨kw "a", .bad⟩, ⟨kw "c", .ok⟩] := by
   decide +kernel
 
-/-- … second way ("else `*`"): a line without a tag — empty, or starting with a byte that cannot start a
-tag — is answered with an EMPTY tag (` BAD …`, a response line that starts with a space), not with `*`; and
-DONE outside IDLE is answered ` NO bad command`. Oracle label `cause=untagged-line-empty-tag`. -/
-theorem untagged_line_gets_empty_tag :
+/-- regression of `cause=untagged-line-empty-tag` (repaired by /repo 6e0070e; was the witness
+`untagged_line_gets_empty_tag`): a line without a tag is answered `* BAD`, DONE outside IDLE `* NO` -/
+example :
     (run (sessionCfg false) okBackend () (kw "a NOOP\r\n (\r\nb NOOP\r\n")).out
-      = [⟨kw "a", .ok⟩, ⟨[], .bad⟩, ⟨kw "b", .ok⟩] ∧
+      = [⟨kw "a", .ok⟩, ⟨star, .bad⟩, ⟨kw "b", .ok⟩] ∧
     lineTag (kw " (\r\n") = none ∧
-    (run (sessionCfg false) okBackend () (kw "DONE\r\n")).out.map (·.tag) = [[]] := by
+    (run (sessionCfg false) okBackend () (kw "DONE\r\n")).out = [⟨star, .no⟩] := by
   decide +kernel
 
-/-- **`error_tag_partial`** — what holds under the NAMED hypothesis `lateErrDropsTag = false` (`Parse` keeps
-the parsed tag for every error, i.e. every error return is `return result, err`): the BAD for a line that
-does not parse carries exactly the line's tag, and an empty tag when the line has none (still not `*`). -/
-theorem error_tag_partial (cfg : Cfg) (hk : cfg.lateErrDropsTag = false) (fuel : Nat) (s : PState)
-    (hf : s.rest.length < fuel) (bytes t : Bytes) (s' : PState)
-    (h : readStep cfg fuel s = .line ⟨bytes, .err t⟩ s') : t = (lineTag bytes).getD [] := by
-  obtain ⟨A, hA, hsplit⟩ := readStep_line_lf cfg fuel s _ s' h
-  have ht : t = errTag cfg fuel s := by
-    unfold readStep at h
-    cases hp : parseLine fuel s with
-    | fuel => rw [hp] at h; cases h
-    | err e s1 =>
-      rw [hp] at h
-      cases e with
-      | panic => cases h
-      | ioEOF => cases h
-      | parse tt =>
-        simp only at h
-        split at h
-        · cases h
-        · cases hci : consumeInvalidInput s1 with
-          | mk s2 ok =>
-            rw [hci] at h
-            cases ok with
-            | false => cases h
-            | true =>
-              simp only at h
-              split at h
-              · cases h
-              · cases h; rfl
-    | ok c s1 =>
-      rw [hp] at h
-      simp only at h
-      split at h
-      · split at h
-        · cases h
-        · split at h <;> cases h
-      · cases h
-  rw [ht, errTag_full cfg fuel s hk hf]
-  simp only at hA hsplit
-  rw [hsplit, hA, takeWhile_line]
-  unfold lineTag
-  simp only
-  split <;> simp_all
-
-/-- non-vacuity of `error_tag_partial`: with the tag kept, `a NOOP x` is answered `a BAD` -/
-example : (run { sessionCfg false with lateErrDropsTag := false } okBackend () (kw "a NOOP x\r\nb NOOP\r\n")).out
-    = [⟨kw "a", .bad⟩, ⟨kw "b", .ok⟩] := by decide +kernel
+/-- what the two repairs changed, on the model: with the former behaviour (`lateErrDropsTag`, no `*` rule) the same
+streams get EMPTY tags -/
+example :
+    (run { sessionCfg false with lateErrDropsTag := true, emptyTagIsStar := false } okBackend ()
+      (kw "a NOOP x\r\n (\r\nb NOOP\r\n")).out = [⟨[], .bad⟩, ⟨[], .bad⟩, ⟨kw "b", .ok⟩] := by
+  decide +kernel
 
 /-! ## lines dropped without a reply -/
 
-/-- A complete line can be dropped without ANY reply — first way: `MakeError` reports the PREVIOUS token,
+/-- A complete line can still be dropped without ANY reply (known finding): `MakeError` reports the PREVIOUS token,
 which before the first line of a connection is the zero token, of type EOF; so a first line that starts
 with a byte that cannot start a tag (space, `(`, a control character, …) is taken for end of input: the
 reader returns, the connection is closed, nothing is written — although the same line sent second is
@@ -352,13 +355,12 @@ theorem first_line_with_bad_first_byte_is_dropped :
     (run (sessionCfg false) okBackend () (kw "x NOOP\r\n a NOOP\r\nb NOOP\r\n")).out.map (·.cls) = [.ok, .bad, .ok] := by
   decide +kernel
 
-/-- … second way: STARTTLS on a server without TLS configuration: `handleStartTLS` RETURNS its NO response
-as an error instead of sending it, the reader returns, the connection is closed without a reply. (Stated
-under what the facts say; a `handleStartTLS` that sends the NO makes the hypothesis false.) Oracle label
-`cause=starttls-without-tls-drops`. -/
-theorem starttls_without_tls_is_dropped : (sessionCfg false).starttlsNoTLSDrops = true →
-    (run (sessionCfg false) okBackend () (kw "a STARTTLS\r\nb NOOP\r\n")).out = [] ∧
-    (run (sessionCfg false) okBackend () (kw "a STARTTLS\r\nb NOOP\r\n")).fin = .reader .starttlsNoTLS := by
+/-- regression of `cause=starttls-without-tls-drops` (repaired by /repo d270f6a; was the witness
+`starttls_without_tls_is_dropped`): STARTTLS on a server without TLS configuration is answered `<tag> NO` by
+the reader, and the session carries on -/
+example :
+    (run (sessionCfg false) okBackend () (kw "a STARTTLS\r\nb NOOP\r\n")).out = [⟨kw "a", .no⟩, ⟨kw "b", .ok⟩] ∧
+    (run (sessionCfg false) okBackend () (kw "a STARTTLS\r\nb NOOP\r\n")).fin = .reader (.eof true) := by
   decide +kernel
 
 /-- the deliberate one: a line that does not parse and starts with a TLS record header (a client speaking TLS
@@ -376,7 +378,7 @@ erroneous lines. -/
 theorem max_errors_close (cfg : Cfg) (B : Backend σ) (st : SState σ) (hm : st.mode = .normal)
     (tags : List Bytes) (hne : tags ≠ []) (hcount : st.errs + tags.length = cfg.maxErr)
     (more : List ReadRes) (e : ReaderExit) :
-    serveAll cfg B st (tags.map .err ++ more) e = (tags.map (fun t => [⟨t, .bad⟩]), .closed .tooManyErrors) :=
+    serveAll cfg B st (tags.map .err ++ more) e = (tags.map (fun t => [mkC cfg t .bad]), .closed .tooManyErrors) :=
   serveAll_errs_close cfg B more e tags st hm hne hcount
 
 /-- **… and not earlier**: a run of erroneous lines that keeps the counter below `maxSessionError` is answered
@@ -384,7 +386,7 @@ BAD, one for one, and the session goes on with whatever follows. -/
 theorem fewer_errors_do_not_close (cfg : Cfg) (B : Backend σ) (st : SState σ) (hm : st.mode = .normal)
     (tags : List Bytes) (hcount : st.errs + tags.length < cfg.maxErr) (more : List ReadRes) (e : ReaderExit) :
     serveAll cfg B st (tags.map .err ++ more) e =
-      (tags.map (fun t => [⟨t, .bad⟩]) ++ (serveAll cfg B { st with errs := st.errs + tags.length } more e).1,
+      (tags.map (fun t => [mkC cfg t .bad]) ++ (serveAll cfg B { st with errs := st.errs + tags.length } more e).1,
        (serveAll cfg B { st with errs := st.errs + tags.length } more e).2) :=
   serveAll_errs_below cfg B more e tags st hm hcount
 
@@ -419,7 +421,7 @@ theorem session_usable_after_error (cfg : Cfg) (B : Backend σ) (hr : cfg.resetO
     (hm : st.mode = .normal) (hlt : st.errs + 1 < cfg.maxErr) (t : Bytes) (c : Command) (more : List ReadRes)
     (e : ReaderExit) :
     serveAll cfg B st (.err t :: .cmd c :: more) e =
-      ([⟨t, .bad⟩] :: (serveAll cfg B st (.cmd c :: more) e).1, (serveAll cfg B st (.cmd c :: more) e).2) := by
+      ([mkC cfg t .bad] :: (serveAll cfg B st (.cmd c :: more) e).1, (serveAll cfg B st (.cmd c :: more) e).2) := by
   rw [serveAll_cons, serveStep_err cfg B st hm]
   have : ¬ st.errs + 1 ≥ cfg.maxErr := by omega
   simp only [this, if_false]
